@@ -1,6 +1,9 @@
 package main
 
 import (
+	"io"
+	"path/filepath"
+	"os"
 	"strings"
 	"encoding/json"
 	"fmt"
@@ -155,7 +158,50 @@ func genPtrDump(r *Rng) []GSpec {
 	return gs
 }
 
+// runC15Sources: naming together with source analysis (the default options).  The typed
+// rendering must not change what is classified as a pointer or what carries a name: lengths and
+// capacities of a megabyte look like pointers to the classifier and are named like them.
+func runC15Sources(res *Result, r *Rng) {
+	dir, err := os.MkdirTemp("", "verif-c15-src-")
+	if err != nil {
+		return
+	}
+	defer os.RemoveAll(dir)
+	os.MkdirAll(filepath.Join(dir, "src", "app"), 0o755)
+	path := filepath.Join(dir, "src", "app", "main.go")
+	os.WriteFile(path, []byte("package main\n\nfunc fill(name string, buf []byte, p *int, n int) {\n\tpanic(1)\n}\n\nfunc main() {\n\tfill(\"\", nil, nil, 0)\n}\n"), 0o644)
+	opts := &stack.Opts{LocalGOPATHs: []string{dir}, NameArguments: true, GuessPaths: true, AnalyzeSources: true}
+	for i := 0; i < countN(res.Tier, 60, 2000); i++ {
+		big := []uint64{0x100000, 0x200000, 0x80001, 0x100000}[r.Intn(4)] // > pointerFloor: classified as pointers
+		ptr := uint64(0xc000010000 + r.Intn(3)*0x1000)
+		var sb strings.Builder
+		n := 2 + r.Intn(3)
+		for g := 1; g <= n; g++ {
+			l := big
+			if r.Chance(1, 3) {
+				l = uint64(5 + r.Intn(3))
+			}
+			fmt.Fprintf(&sb, "goroutine %d [running]:\nmain.fill({0x%x, 0x%x}, {0x%x, 0x%x, 0x%x}, 0x%x, 0x%x)\n\t%s:4 +0x1d\nmain.main()\n\t%s:8 +0x2\n\n", g, ptr, l, ptr+0x100, l, big, ptr, l, path, path)
+		}
+		txt := sb.String()
+		var s *stack.Snapshot
+		if p := catch(func() { s, _, _ = stack.ScanSnapshot(strings.NewReader(txt), io.Discard, opts) }); p != nil || s == nil {
+			continue
+		}
+		named := mGs(s.Goroutines)
+		res.Count("named-with-sources")
+		if len(s.Goroutines[0].Stack.Calls) > 0 && len(s.Goroutines[0].Stack.Calls[0].Args.Processed) == 0 {
+			res.Count("named-with-sources:not-augmented")
+		}
+		if w := checkNames(named); w != "" {
+			res.Violation(Finding{Stream: "names+sources", What: "naming and source analysis on (default options), sources found: " + w, Op: map[string]interface{}{"dump": txt, "source": "func fill(name string, buf []byte, p *int, n int)"}, Got: named})
+			return
+		}
+	}
+}
+
 func runC15(prop string, res *Result, pool *DrvPool, r *Rng) {
+	runC15Sources(res, r.Fork())
 	res.Rule = "generated dumps whose arguments draw from a small pool of pointer values (recurring within and across goroutines, in nested aggregates, at the classification boundaries), scanned with naming on and off (every third case also through ScanSnapshot with path guessing / source analysis on or off: naming off must leave no name whatever the other options are); non-trivial = at least one pointer value recurs; distinct by hash of the dump text"
 	n := countN(res.Tier, 2500, 80000)
 	for i := 0; i < n; i++ {
